@@ -230,3 +230,38 @@ Proof. intros HA Hb Hz Hzs Hinj Hsol Hnn Hmin.
     rewrite (rmv_sub A z zs HA') by congruence. rewrite HAz, Hsol. clear. induction b as [|x b IH]; [constructor|].
     change (rsub (x :: b) (x :: b)) with (x - x :: rsub b b). constructor; [ring|exact IH]. }
   apply rsub_zero_eq; [congruence|exact Hd]. Qed.
+
+(* ================================================================== perturbed systems: the derived tolerance of the C01 / C06 / C07 oracles *)
+(* |u - v|^2 <= 2 |u|^2 + 2 |v|^2 *)
+Lemma rsqn_sub_le (u v : list R) : length u = length v -> rsqn (rsub u v) <= 2 * rsqn u + 2 * rsqn v.
+Proof.
+  revert v; induction u as [|x u IH]; intros [|y v] H; simpl in H; try lia; [unfold sqn, vdot; simpl; lra|].
+  change (rsub (x :: u) (y :: v)) with (x - y :: rsub u v). unfold sqn in *. rewrite !rdot_cons.
+  assert (Hl : length u = length v) by (injection H; auto). specialize (IH v Hl).
+  pose proof (Rle_0_sqr (x + y)) as Q. unfold Rsqr in Q. lra.
+Qed.
+Lemma rsub_common (a c b : list R) : length a = length b -> length c = length b -> rsub (rsub a b) (rsub c b) = rsub a c.
+Proof.
+  revert c b; induction a as [|x a IH]; intros [|z c] [|y b] H1 H2; simpl in *; try lia; [reflexivity|].
+  change (rsub (rsub (x :: a) (y :: b)) (rsub (z :: c) (y :: b))) with ((x - y) - (z - y) :: rsub (rsub a b) (rsub c b)).
+  change (rsub (x :: a) (z :: c)) with (x - z :: rsub a c). rewrite IH by lia. f_equal. ring.
+Qed.
+(* The assembled matrix A is the true one plus the error of the fitted tangents, so the true tensions xs leave a residual
+   e = A xs - b.  Whatever the back-end returns (xh), if it fits the assembled equations at least as well as xs does, then
+   |A (xh - xs)|^2 <= 4 |e|^2; with sigma2 a lower bound of |A d|^2 / |d|^2 (the squared smallest singular value):
+   sigma2 |xh - xs|^2 <= 4 |e|^2.  This is the tolerance (2 |E T| / sigma_min) the oracles use. *)
+Theorem perturbation_bound n (A : list (list R)) (b xh xs : list R) (sigma2 : R) :
+  rows_ok n A -> length b = length A -> length xh = n -> length xs = n ->
+  rsqn (rsub (rmv A xh) b) <= rsqn (rsub (rmv A xs) b) ->
+  (forall d, length d = n -> sigma2 * rsqn d <= rsqn (rmv A d)) ->
+  sigma2 * rsqn (rsub xh xs) <= 4 * rsqn (rsub (rmv A xs) b).
+Proof.
+  intros HA Hb Hh Hs Hfit Hsig.
+  assert (HA' : rows_ok (length xh) A) by (rewrite Hh; exact HA).
+  pose proof (Hsig (rsub xh xs) ltac:(rewrite rsub_length; congruence)) as H1.
+  rewrite (rmv_sub A xh xs HA') in H1 by congruence.
+  rewrite <- (rsub_common (rmv A xh) (rmv A xs) b) in H1 by (rewrite rmv_length; congruence).
+  pose proof (rsqn_sub_le (rsub (rmv A xh) b) (rsub (rmv A xs) b)) as H2.
+  rewrite !rsub_length in H2 by (rewrite rmv_length; congruence). rewrite !rmv_length in H2. specialize (H2 eq_refl).
+  lra.
+Qed.
